@@ -72,6 +72,10 @@ pub fn choose_enc(ch: &mut Chooser) -> XEnc {
         indent: ch.flag("enc.xml_indented"),
         comments: ch.flag("enc.xml_comments_between_elements"),
         extras: ch.flag("enc.optional_neighbours_of_sheetData"),
+        bool_words: ch.flag("enc.booleans_spelled_true_false"),
+        sst_count_refs: ch.flag("enc.sst_count_smaller_than_item_count"),
+        numfmt_code_first: false,
+        shared_members_carry_text: false,
         rels_target_first: ch.flag("enc.rels_target_before_type"),
         rows_never_r: ch.flag("enc.rows_never_carry_r"),
         split_text_nodes: ch.flag("enc.formula_text_split_by_cdata_and_comment"),
@@ -93,7 +97,10 @@ fn build(ch: &mut Chooser, anchor: (u32, u32), positions: &[(u32, u32)]) -> Case
         d.push(json!([r, c, name]));
     }
     let two = ch.flag("second-sheet");
-    let mut book = XBook { sheets: vec![XSheet::new("Sheet1", cells)], sst: sst(), styles: Some(XStyles { num_fmts: vec![], cell_xfs: vec![0, 0, 14, 0, 2], cell_style_xfs: vec![0], omit_general_numfmt: ch.flag("styles.general-xf-without-numFmtId") }), ..Default::default() };
+    // the 1904 date system, declared in workbookPr (spelled 1 or true), reaches date-styled numbers
+    let d1904 = ch.flag("workbook-uses-1904-date-system");
+    if d1904 { for v in grid.values_mut() { if let Data::DateTime(dt) = v { *v = Data::DateTime(calamine::ExcelDateTime::new(dt.as_f64(), calamine::ExcelDateTimeType::DateTime, true)); } } }
+    let mut book = XBook { sheets: vec![XSheet::new("Sheet1", cells)], sst: sst(), date1904: if d1904 { Some(true) } else { None }, styles: Some(XStyles { num_fmts: vec![], cell_xfs: vec![0, 0, 14, 0, 2], cell_style_xfs: vec![0], omit_general_numfmt: ch.flag("styles.general-xf-without-numFmtId") }), ..Default::default() };
     let mut grids = vec![("Sheet1".to_string(), grid)];
     if two {
         book.sheets.push(XSheet::new("Other", vec![XCell::new(2, 1, XVal::Num("7".into())), XCell::new(3, 3, XVal::SharedStr(0))]));
